@@ -57,7 +57,7 @@ def _has_sig(rec, prop, sig):
     return any(v["prop"] == prop and v["sig"] == sig for v in rec.get("violations", []))
 
 
-def minimise(pool, sched, prop, sig, at_seq, budget_s=150, max_cand=60, verbose=False, hashseed="0"):
+def minimise(pool, sched, prop, sig, at_seq, budget_s=150, max_cand=60, verbose=False, zclass=0):
     """ddmin over the event list; a candidate is accepted only if the same signature recurs."""
     t0 = time.time()
     events = [e for e in sched["events"] if e["seq"] <= at_seq]
@@ -68,7 +68,7 @@ def minimise(pool, sched, prop, sig, at_seq, budget_s=150, max_cand=60, verbose=
         futs = {}
         for idx, c in enumerate(cands):
             s = dict(sched)
-            s["hashseed"] = hashseed
+            s["zclass"] = zclass
             s["events"] = _renumber(c)
             futs[pool.submit(runner.run_seed, ("sched", s))] = idx
         res = {}
@@ -128,9 +128,10 @@ def write_replay(prop, sig, rec, sched, events, tried, reproduced, n):
     doc = {
         "property": prop, "signature": sig, "seed": rec.get("seed"), "mode": sched.get("mode"),
         "tree_hash": env.tree_hash(), "backend": sched.get("backend", "objsim"),
-        "hashseed": rec.get("hashseed", "0"),
-        "workers": [{"hashseed": rec.get("hashseed", "0"), "threads": 1, "tz": None, "import_order": "opendsm-first",
-                     "numba": "warm-shared", "start": "fork-from-warm-zygote"}],
+        "hashseed": rec.get("hashseed", "0"), "zclass": rec.get("zclass", 0),
+        "workers": [{"hashseed": rec.get("hashseed", "0"), "warm_up_variant": rec.get("zclass", 0), "threads": 1,
+                     "tz": None, "import_order": "opendsm-first", "numba": "warm-shared",
+                     "start": "fork-from-warm-zygote"}],
         "events": events,
         "expect": {"detail": v["detail"] if v else None},
         "minimised_from": len(sched["events"]), "candidates_tried": tried, "minimisation_reproduced": reproduced,
@@ -159,8 +160,9 @@ def replay_file(path, prop=None):
 
         rec = fleet.run_fleet(doc)
     else:
-        p = subprocess.run([env.PY, "-W", "ignore", "-c", code, path], cwd=env.VERIF,
-                           env=env.child_env(hashseed=str(doc.get("hashseed", "0"))),
+        e_ = env.child_env(hashseed=str(doc.get("hashseed", "0")))
+        e_["VERIF_WARM_VARIANT"] = str(doc.get("zclass", 0))
+        p = subprocess.run([env.PY, "-W", "ignore", "-c", code, path], cwd=env.VERIF, env=e_,
                            capture_output=True, text=True, timeout=runner.RUN_TIMEOUT + 120)
         line = next((l for l in p.stdout.splitlines() if l.startswith("@@")), None)
         if line is None:
@@ -289,7 +291,7 @@ def check(a, n_runs, n_fleet):
             else:
                 events, tried, rep = minimise(pool, sched, prop, s, v["seq"],
                                               budget_s=100 if a.tier == "quick" else 400,
-                                              hashseed=rec.get("hashseed", "0"))
+                                              zclass=rec.get("zclass", 0))
             path = write_replay(prop, s, rec, sched, events, tried, rep, n)
             ok, _r = replay_file(path, prop)
             if not ok and prop == "C03":
@@ -346,7 +348,7 @@ def _write_cross_replay(prop, sig, v, n, tier="quick"):
         else:
             s = gen.generate(r["seed"], prop, tier)
             runs.append({"backend": "objsim", "seed": r.get("seed"), "hashseed": r.get("hashseed", "0"),
-                         "events": s["events"]})
+                         "zclass": r.get("zclass", 0), "events": s["events"]})
     with open(path, "w") as f:
         json.dump({"property": prop, "signature": sig, "backend": "cross", "key": v["detail"]["key"],
                    "seeds": [ra.get("seed"), rb.get("seed")], "mode": prop, "runs": runs,
@@ -368,8 +370,10 @@ def _replay_cross(doc):
             code = ("import json,sys\nfrom sim import runner\nrun=json.load(open(sys.argv[1]))['runs'][int(sys.argv[2])]\n"
                     "rec=runner.run_forked({'seed':run['seed'],'mode':None,'events':run['events']})\n"
                     "print('@@'+json.dumps({'keys':rec.get('keys'),'fatal':rec.get('fatal')}))\n")
+            e_ = env.child_env(hashseed=str(run.get("hashseed", "0")))
+            e_["VERIF_WARM_VARIANT"] = str(run.get("zclass", 0))
             p = subprocess.run([env.PY, "-W", "ignore", "-c", code, doc["_path"], str(doc["runs"].index(run))],
-                               cwd=env.VERIF, env=env.child_env(hashseed=str(run.get("hashseed", "0"))),
+                               cwd=env.VERIF, env=e_,
                                capture_output=True, text=True, timeout=runner.RUN_TIMEOUT + 120)
             line = next((l for l in p.stdout.splitlines() if l.startswith("@@")), None)
             rec = json.loads(line[2:]) if line else {"fatal": "no record"}
